@@ -14,6 +14,9 @@ def InRange (dt : Data) : Op → Prop
   | .rmDp _ dp _ => dp < dt.n
   | _ => True
 
+instance (dt : Data) (op : Op) : Decidable (InRange dt op) := by
+  cases op <;> unfold InRange <;> infer_instance
+
 theorem getElem?_lt {α} {l : List α} {i : Nat} {a : α} (h : l[i]? = some a) : i < l.length := by
   by_contra hc
   rw [List.getElem?_eq_none (by omega)] at h
@@ -36,11 +39,12 @@ theorem forall_append_one {P : Store → Prop} {sys : Sys} {r : Store}
   · exact hs s hm
   · rw [List.mem_singleton] at hm; exact hm ▸ hr
 
-/-- **C06, one edit on a system of handles.**  `WF` of the handles before the edit is used to locate
-the recomputation path; `WF` of the handles after it is used for `add_subtree` only (that the name →
-index map of the result sends the graft point's name to the graft point). -/
+/-- **C06, one edit on a system of handles.**  `WFc` (the part of C07's `WF` the cache proofs use:
+unique graph indices, name → index exact on the clones) of the handles before the edit is used to
+locate the recomputation path; `WFc` of the handles after it is used for `add_subtree` only (that the
+name → index map of the result sends the graft point's name to the graft point). -/
 theorem cacheOK_step' (dt : Data) (hNZ : DataNZ dt) (sys sys' : Sys) (op : Op)
-    (hwf : ∀ s ∈ sys, WF s) (hwf' : ∀ s ∈ sys', WF s) (hin : InRange dt op)
+    (hwf : ∀ s ∈ sys, WFc s) (hwf' : ∀ s ∈ sys', WFc s) (hin : InRange dt op)
     (hc : ∀ s ∈ sys, CacheOK dt s) (h : step dt sys op = some sys') :
     ∀ s ∈ sys', CacheOK dt s := by
   cases op with
@@ -60,7 +64,7 @@ theorem cacheOK_step' (dt : Data) (hNZ : DataNZ dt) (sys sys' : Sys) (op : Op)
     obtain ⟨s, hs, r, hr, h⟩ := h
     cases h
     have hm := mem_of_getElem? hs
-    exact forall_setH hc (cacheOK_addDp dt s r dp nd (hwf s hm).toWFc (hc s hm) hr)
+    exact forall_setH hc (cacheOK_addDp dt s r dp nd (hwf s hm) (hc s hm) hr)
   | rmDp hd dp nd =>
     simp only [step, Option.bind_eq_bind, Option.bind_eq_some_iff, Option.pure_def] at h
     obtain ⟨s, hs, r, hr, h⟩ := h
@@ -86,7 +90,7 @@ theorem cacheOK_step' (dt : Data) (hNZ : DataNZ dt) (sys sys' : Sys) (op : Op)
     obtain ⟨s, hs, sb, hsb', r, hr, h⟩ := h
     cases h
     have hm := mem_of_getElem? hs
-    have hw : WFc (s.touch s.nodes) := ⟨(hwf s hm).toWFc.1, (hwf s hm).toWFc.2⟩
+    have hw : WFc (s.touch s.nodes) := ⟨(hwf s hm).1, (hwf s hm).2⟩
     exact forall_setH (forall_setH hc (cacheOK_touch dt sb _ (hc sb (mem_of_getElem? hsb'))))
       (cacheOK_rmSub dt _ _ r hw (cacheOK_touch dt s _ (hc s hm)) hr)
   | addSub hd hsb par =>
@@ -95,7 +99,7 @@ theorem cacheOK_step' (dt : Data) (hNZ : DataNZ dt) (sys sys' : Sys) (op : Op)
     cases h
     have hrm : r ∈ setH sys hd r := List.mem_set (getElem?_lt hs) r
     exact forall_setH hc (cacheOK_addSub dt s sb r par (hc s (mem_of_getElem? hs))
-      (hc sb (mem_of_getElem? hsb')) (hwf' r hrm).toWFc hr)
+      (hc sb (mem_of_getElem? hsb')) (hwf' r hrm) hr)
   | relabel hd =>
     simp only [step, Option.bind_eq_bind, Option.bind_eq_some_iff, Option.pure_def] at h
     obtain ⟨s, hs, h⟩ := h
@@ -126,6 +130,11 @@ def Along (dt : Data) (P : Sys → Prop) : Sys → List Op → Prop
   | sys, [] => P sys
   | sys, op :: ops => P sys ∧ ∀ sys', step dt sys op = some sys' → Along dt P sys' ops
 
+theorem Along.mono {dt : Data} {P Q : Sys → Prop} (hPQ : ∀ sy, P sy → Q sy) :
+    ∀ {ops : List Op} {sys : Sys}, Along dt P sys ops → Along dt Q sys ops
+  | [], _, h => hPQ _ h
+  | _ :: _, _, h => ⟨hPQ _ h.1, fun sys' hs => Along.mono hPQ (h.2 sys' hs)⟩
+
 theorem Along.head {dt : Data} {P : Sys → Prop} {sys : Sys} {ops : List Op}
     (h : Along dt P sys ops) : P sys := by
   cases ops with
@@ -151,7 +160,7 @@ theorem along_of_prefixes (dt : Data) (P : Sys → Prop) : ∀ (ops : List Op) (
 
 /-- **C06, every history.** -/
 theorem cacheOK_run (dt : Data) (hNZ : DataNZ dt) : ∀ (ops : List Op) (sys sys' : Sys),
-    Along dt (fun sy => ∀ s ∈ sy, WF s) sys ops → (∀ op ∈ ops, InRange dt op) →
+    Along dt (fun sy => ∀ s ∈ sy, WFc s) sys ops → (∀ op ∈ ops, InRange dt op) →
     (∀ s ∈ sys, CacheOK dt s) → run dt sys ops = some sys' → ∀ s ∈ sys', CacheOK dt s
   | [], sys, sys', _, _, hc, h => by
     simp only [run, List.foldlM_nil] at h
